@@ -15,6 +15,7 @@
      trackConn      : LTrack / LUntrack (lock; map update; counter add; unlock = one atomic step)
      Shutdown       : LSdCall, LSdBegin, LSdCas, LSdLoad, LSdClose, LSdPassEnd, LSdRetry, LSdTimeout, LSdReturn
      context        : LCancel (caller), LAfterClose (goroutine started by context.AfterFunc)
+     I/O faults     : LRejectCloseErr, LDropCloseErr, LConnExitErr (Close() failing), LServeErrCb (serve reporting it)
    The environment (peers, handler, clock) is the nondeterminism of the labels.  *)
 From Coq Require Import List Arith ZArith Bool.
 Import ListNotations.
@@ -35,13 +36,17 @@ Definition all_cfgs : list cfg :=
      v_drop_old  (before ac00631) the select on ctx.Done() returned without closing the accepted connection
      v_nil_old   (before 17ec04c) Shutdown called s.listener.Close() on a nil listener; serve did not
                  look at isShutdown when publishing the listener *)
-Record variant := { v_guard_old : bool; v_load_old : bool; v_track_old : bool; v_drop_old : bool; v_nil_old : bool }.
-Definition GuardNow : variant := Build_variant false false false false false.
-Definition GuardOld : variant := Build_variant true false false false false.
-Definition LoadOld : variant := Build_variant false true false false false.
-Definition TrackOld : variant := Build_variant false false true false false.
-Definition DropOld : variant := Build_variant false false false true false.
-Definition NilOld : variant := Build_variant false false false false true.
+Record variant := { v_guard_old : bool; v_load_old : bool; v_track_old : bool; v_drop_old : bool; v_nil_old : bool;
+                    v_raw_err : bool }.
+Definition GuardNow : variant := Build_variant false false false false false false.
+Definition GuardOld : variant := Build_variant true false false false false false.
+Definition LoadOld : variant := Build_variant false true false false false false.
+Definition TrackOld : variant := Build_variant false false true false false false.
+Definition DropOld : variant := Build_variant false false false true false false.
+Definition NilOld : variant := Build_variant false false false false true false.
+(* not a historical version: the reject path reporting a close error through the raw field s.OnErrorFunc
+   instead of the local onErrorFunc (which carries the logging default) *)
+Definition RawErr : variant := Build_variant false false false false false true.
 Definition close_guard (v : variant) (k : cfg) : bool :=
   if v_guard_old v then on_accept k else on_close k.
 
@@ -144,6 +149,8 @@ Inductive spc :=             (* program counter of serve *)
 | SDrop (c : nat) (ret : bool)     (* c is not going to be served (ret: ctx done in the select, serve returns
                                       afterwards; else trackConn refused it, serve continues): netConn.Close() pending *)
 | SDropCb (c : nat) (ret : bool)   (* closed; `if s.OnCloseConnFunc != nil { call }` pending *)
+| SErrCb (c : nat) (next : nat)    (* netConn.Close() of c returned an error, `onErrorFunc(..)` pending; then: next = 0 continue
+                                      (reject path), 1 / 2 = the close callback of the dropped connection (ret = true / false) *)
 | SLeaving (reg : bool)            (* about to `return ErrServerClosed` (reg: the AfterFunc has been registered) *)
 | SReturned (e : err).
 
@@ -233,14 +240,21 @@ Inductive label :=
 | LSdReturn                         (* range finished with allIdle == true: return err (deferred Unlock) *)
 (* context *)
 | LCancel
-| LAfterClose.                      (* the AfterFunc goroutine: l.Close() *)
+| LAfterClose                       (* the AfterFunc goroutine: l.Close() *)
+(* Close() returning an error although the socket was open (an I/O fault of the environment) *)
+| LRejectCloseErr (c : nat)         (* serve, reject path: `if err := netConn.Close(); err != nil` taken *)
+| LDropCloseErr (c : nat)           (* serve, drop paths: likewise *)
+| LConnExitErr (c : nat)            (* connection goroutine's deferred function: likewise *)
+| LServeErrCb (c : nat).            (* serve: onErrorFunc(fmt.Errorf("connection.close error, ..")) -- the LOCAL onErrorFunc,
+                                       which is the user's OnErrorFunc if set and the logging default otherwise *)
 
 Definition label_gor (l : label) : gor :=
   match l with
   | LServeCb | LPublish | LAccept _ | LAcceptCb _ _ _ | LRejectClose _ | LCtxPass _ | LCtxDone _ | LTrack _
-  | LDropClose _ | LDropCb _ | LServeReturn _ => GServe
+  | LDropClose _ | LDropCb _ | LServeReturn _ | LRejectCloseErr _ | LDropCloseErr _ | LServeErrCb _ => GServe
   | LConnRead c _ | LConnCtxExit c | LHandleStart c | LHandlerStart c | LHandlerEnd c _ | LProtoReply c
-  | LReplyWrite c _ | LHandleEnd c | LErrCb c | LConnLeave c | LConnExit c | LUntrack c | LCloseCb c => GConn c
+  | LReplyWrite c _ | LHandleEnd c | LErrCb c | LConnLeave c | LConnExit c | LUntrack c | LCloseCb c
+  | LConnExitErr c => GConn c
   | LSdCall | LSdBegin | LSdCas _ | LSdLoad _ | LSdClose _ | LSdPassEnd | LSdRetry | LSdTimeout | LSdReturn => GShutdown
   | LCancel => GCaller
   | LAfterClose => GAfter
@@ -527,6 +541,32 @@ Definition step (v : variant) (k : cfg) (s : state) (l : label) : option state :
   | LCancel => if cancelled s then None else Some (s_cancelled true s)
   | LAfterClose =>
       if cancelled s && published (sp s) && negb (returned (sp s)) && lis_open s then Some (s_lis_open false s) else None
+  (* ----- Close() failing on an open socket ----- *)
+  | LRejectCloseErr c =>
+      match sp s, get s c with
+      | SRejected c', Some x =>
+          if Nat.eqb c c' then Some (s_sp (SErrCb c 0) (put s c (c_ph PRejected (c_sock false x)))) else None
+      | _, _ => None
+      end
+  | LDropCloseErr c =>
+      match sp s, get s c with
+      | SDrop c' r, Some x =>
+          if Nat.eqb c c' then Some (s_sp (SErrCb c (if r then 1 else 2)) (put s c (c_ph PDropping (c_sock false x)))) else None
+      | _, _ => None
+      end
+  | LConnExitErr c =>
+      conn_step s c PExiting (fun x => if sock x then Some (c_ph PExited (c_sock false (c_pend true x))) else None)
+  | LServeErrCb c =>
+      match sp s with
+      | SErrCb c' n =>
+          if Nat.eqb c c' then
+            if v_raw_err v && Nat.eqb n 0 && negb (on_error k)
+            then Some (s_crashed true s)          (* s.OnErrorFunc is nil *)
+            else Some (s_errs (if on_error k then S (errs s) else errs s)
+                        (s_sp (match n with 0 => SLoop | 1 => SDropCb c true | _ => SDropCb c false end) s))
+          else None
+      | _ => None
+      end
   end.
 
 (* the step function of the code as it is now *)
@@ -550,20 +590,22 @@ Inductive obs :=
 | OServeCb | OAccept (c : nat) | OAcceptCb (c : nat) (n : Z) (ok : bool) | OConnClose (c : nat)
 | OServeReturn (e : err) | ORead (c : nat) (r : rres) | OHandlerStart (c : nat) | OHandlerEnd (c : nat) (ok : bool)
 | OWrite (c : nat) (ok : bool) | OErrCb | OCloseCb (c : nat) (isshut : bool)
-| OSdCall | OSdReturn (e : err) | OCancel.
+| OSdCall | OSdReturn (e : err) | OCancel
+| ODefLog.   (* onErrorFunc was the logging default: a line of the standard logger *)
 
 Definition observe (k : cfg) (s : state) (l : label) : option obs :=
   match l with
   | LServeCb => if on_serve k then Some OServeCb else None
   | LAccept c => Some (OAccept c)
   | LAcceptCb c n ok => Some (OAcceptCb c n ok)
-  | LRejectClose c | LConnExit c | LSdClose c | LDropClose c => Some (OConnClose c)
+  | LRejectClose c | LConnExit c | LSdClose c | LDropClose c
+  | LRejectCloseErr c | LDropCloseErr c | LConnExitErr c => Some (OConnClose c)
   | LServeReturn e => Some (OServeReturn e)
   | LConnRead c r => match r with RTimeout => None | _ => Some (ORead c r) end
   | LHandlerStart c => Some (OHandlerStart c)
   | LHandlerEnd c ok => Some (OHandlerEnd c ok)
   | LReplyWrite c ok => Some (OWrite c ok)
-  | LErrCb _ => if on_error k then Some OErrCb else None
+  | LErrCb _ | LServeErrCb _ => if on_error k then Some OErrCb else Some ODefLog
   | LCloseCb c => if on_close k then Some (OCloseCb c (shut s)) else None
   | LDropCb c => if on_close k
                  then Some (OCloseCb c (match sp s with SDropCb _ false => true | _ => shut s end))
